@@ -75,6 +75,15 @@ pub fn run(out: &mut Out, seed: u64, tier: &str) {
             mols.insert(0, Mol { name: format!("dense-carbon-cluster-{}", k), zs: vec![6; n], xs });
         }
     }
+    // elements without a UFF type of their own (Z >= 104: typed by the best match over the whole table): alone, as a terminal atom,
+    // as an axis-aligned centre — exact ties between candidate types are the rule there, and how they are broken must not vary
+    for z in [104usize, 106, 110, 112, 118] {
+        mols.push(Mol { name: format!("atom{}", z), zs: vec![z], xs: vec![[0.1, 0.2, 0.3]] });
+        mols.push(Mol { name: format!("methane+{}", z), zs: vec![6, 1, 1, 1, 1, z], xs: vec![[0.0, 0.0, 0.0], [0.63, 0.63, 0.63], [-0.63, -0.63, 0.63], [-0.63, 0.63, -0.63], [0.63, -0.63, -0.63], [4.5, 0.3, 0.2]] });
+        mols.push(centre(z, 9, "single", 1.0));
+        mols.push(centre(z, 8, "octahedral", 1.0));
+        mols.push(centre(z, 17, "square", 1.0));
+    }
     let (mut n, mut multi) = (0usize, 0usize);
     for m in mols.iter() {
         if m.n() > 20 || m.min_distance() < 0.5 { continue; }
